@@ -1,4 +1,5 @@
 import SkaModel.Core.Rng
+import SkaModel.Props.C13
 
 /-!
 # C06 — results are reproducible for a fixed `random_state`
@@ -94,6 +95,21 @@ theorem pool_repeat_equal {β : Type} (F : List Nat → β) (mk : Nat → Stream
       apply ih hq.2
       all_goals (cases s <;> simp_all [step, Src.usesGlobal])
   rw [key p h ⟨0, 0, globCur, []⟩ ⟨0, 0, globCur', []⟩ rfl rfl rfl]
+
+/-! ### no state carried from one query into the next -/
+
+/-- **A pool query is a function of the constructor parameters and the call arguments.**  If the effect summary of
+`query` (regenerated from the current source into `SkaModel/Gen/EffectsC05.lean`, obligation
+`query_<Class>_historyFree`) never looks at a non-parameter attribute of `self` before having written it in the same
+call, then for any two strategy objects that agree on the constructor parameters — one with an arbitrary history of
+earlier queries, one freshly constructed — and the same arguments and draws (`F`), both calls read the same values,
+take the same branches and compute the same values: whatever an earlier query cached on the object cannot reach the
+result.  (Instance of the read-before-write theorem proved for `fit` in C13.) -/
+theorem query_history_free (S : Ska.Effects.Summary) (hh : Ska.Effects.HistoryFree S = true) (F : Ska.Effects.HOra)
+    (o o' : Nat → Ska.Effects.Val) (hparams : ∀ a, S.params.contains a = true → o a = o' a) :
+    (Ska.Effects.hRun F S.body ⟨o, [], 0, false⟩).log = (Ska.Effects.hRun F S.body ⟨o', [], 0, false⟩).log ∧
+    (Ska.Effects.hRun F S.body ⟨o, [], 0, false⟩).dead = (Ska.Effects.hRun F S.body ⟨o', [], 0, false⟩).dead :=
+  ⟨(Ska.C13.fit_history_free S hh F o o' hparams).1, (Ska.C13.fit_history_free S hh F o o' hparams).2.1⟩
 
 /-! ### `check_random_state` seen from the caller -/
 
